@@ -180,7 +180,7 @@ func BuildSeeds(lim Limits) ([]*Seed, error) {
 	}
 	ss.add("hand/post-format1", "post", []byte{0, 1, 0, 0, 0, 0, 0, 0, 0xFF, 0x9C, 0, 50, 0, 0, 0, 0,
 		0, 0, 0, 0, 0, 0, 0, 0, 0, 0, 0, 0, 0, 0, 0, 0}, 0)
-	ss.add("hand/GSUB-extension", "GSUB", handExtension(7, []int{1, 6, 2, 1, 1, 2}), 0)       // 1.1: coverage at 6, delta 2
+	ss.add("hand/GSUB-extension", "GSUB", handExtension(7, []int{1, 6, 2, 1, 1, 2}), 0)     // 1.1: coverage at 6, delta 2
 	ss.add("hand/GPOS-extension", "GPOS", handExtension(9, []int{1, 8, 4, 10, 1, 1, 2}), 0) // 1.1: coverage at 8, XAdvance 10
 
 	// cmap: one table with formats 0, 4 (with glyphIdArray), 6, 12 and a shared subtable
